@@ -116,6 +116,58 @@ def failing_W6():
     ]
 
 
+def SH():
+    """P and P2 are constructed from one and the same float64 array object (a caller's template)"""
+    from ..world import plate
+
+    a = [[100, 100, 100], [100, 100, 100]]
+    return [
+        dict(plate("P", 2, 3, 10, 200, a), share="tmpl"),
+        dict(plate("P2", 2, 3, 0, 300, a), share="tmpl"),
+        plate("Q", 3, 2, 0, 150, 0),
+    ]
+
+
+def core_SH():
+    return [
+        T("P", ["A01"], "P2", ["A01"], [60]),
+        A("P", ["B01"], [45]),
+        D("P2", ["B01"], [45]),
+        T("P2", ["B02"], "Q", ["A01"], [30]),
+    ]
+
+
+def full_SH():
+    return core_SH() + [
+        T("P", ["A01", "B01"], "P2", ["A01", "B01"], [45, 60]),
+        T("P2", ["A01"], "P", ["A01"], [120]),
+        A("P", ["A01"], [45]),
+        D("P", ["A01"], [45]),
+        A("P2", ["A01", "A01"], [45, 45]),
+    ]
+
+
+def core_MV():
+    return [
+        ["set_attr", "w", "max_volume", 20],
+        T("P", ["A01"], "Q", ["A01"], [30]),
+        A("P", ["B01"], [7.5]),
+    ]
+
+
+def full_MV():
+    return core_MV() + [
+        A("P", ["A01"], [30]),
+        D("Q", ["A01"], [30]),
+        A("P", ["A01", "B01"], [7.5, 45]),
+        T("P", ["A01", "B01"], "Q", ["A01", "B01"], [30, 45]),
+        T("T", ["A01"], "Q", ["B02"], [20.5], wash_scheme="reuse"),
+        R("T", 0, "Q", ["A01", "B01"], 30),
+        R("T", 0, "Q", ["A01", "B01", "C01"], 7.5, multi_disp=3),
+        ["set_attr", "w", "max_volume", 50],
+    ]
+
+
 def evo_events():
     return [
         # tips given in descending order with individual volumes: must not be emitted with swapped volumes
@@ -171,6 +223,11 @@ class Harness(cm.BaseA):
                     )
         for cls in ("EvoWorklist", "FluentWorklist"):
             out.append({"set": "W6", "labware": cm.W6(), "worklists": {"w": {"cls": cls, "max_volume": 50, "auto_split": True}}})
+            # labware built from one array object (every transition re-executes its history on fresh objects)
+            out.append({"set": "SH", "fresh": True, "labware": SH(), "worklists": {"w": {"cls": cls, "max_volume": 50, "auto_split": True}}})
+            # wl.max_volume re-assigned on the live worklist
+            for asplit in (True, False):
+                out.append({"set": "MV", "labware": cm.W1(), "worklists": {"w": {"cls": cls, "max_volume": 50, "auto_split": asplit}}})
         return out
 
     def _robot(self, config):
@@ -183,16 +240,25 @@ class Harness(cm.BaseA):
         W["robot"] = self._robot(config)
         W["path"] = []
         W["allrecs"] = []
+        W["wlmax"] = 50
         return W
 
     def core_events(self, W, config):
         if config["set"] == "W6":
             return core_W6()
+        if config["set"] == "SH":
+            return core_SH()
+        if config["set"] == "MV":
+            return core_MV()
         return c01.SETS[config["set"]][1]()
 
     def full_events(self, W, config):
         if config["set"] == "W6":
             return core_W6() + failing_W6()
+        if config["set"] == "SH":
+            return full_SH()
+        if config["set"] == "MV":
+            return full_MV()
         ev = list(c01.SETS[config["set"]][2]("quick"))
         ev += failing_W1() if config["set"] == "W1" else failing_W3()
         if config["worklists"]["w"]["cls"] == "EvoWorklist":
@@ -201,7 +267,7 @@ class Harness(cm.BaseA):
 
     def canon(self, W, config):
         parts = [lw.volumes.astype(float).tobytes() for _, lw in sorted(W["lw"].items())]
-        return b"|".join(parts) + W["robot"].canon().encode()
+        return b"|".join(parts) + W["robot"].canon().encode() + repr(W["wlmax"]).encode()
 
     def step(self, W, ev, config):
         wl = W["wl"]["w"]
@@ -215,6 +281,12 @@ class Harness(cm.BaseA):
         V = res["violations"]
         robot = W["robot"]
         robot.tip = None
+        if ev[0] == "set_attr" and out == "ok":
+            from fractions import Fraction
+
+            W["wlmax"] = ev[3]
+            robot.wl_max = Fraction(ev[3])
+        wlmax = W["wlmax"]
         for i, r in enumerate(recs):
             p, issues = robot.feed(r)
             for tag, d in issues:
@@ -230,7 +302,7 @@ class Harness(cm.BaseA):
             # without auto_split an oversized step must raise instead of being emitted
             if not config["worklists"]["w"]["auto_split"] and ev[0] == "transfer":
                 tr = cm.triples(config, ev[2], ev[3], ev[4], ev[5], ev[6])
-                if tr and any(v > 50 for _, _, v in tr):
+                if tr and any(v > wlmax for _, _, v in tr):
                     V.append(("C03/oversized-step-not-refused", "transfer with auto_split off and a volume above max_volume returned normally"))
             return res
         res["expand"] = False
@@ -242,7 +314,7 @@ class Harness(cm.BaseA):
                 tr = cm.triples(config, ev[2], ev[3], ev[4], ev[5], ev[6])
             except Exception:
                 pass
-            if tr and any(v > 50 for _, _, v in tr) and all(v >= 0 for _, _, v in tr):
+            if tr and any(v > wlmax for _, _, v in tr) and all(v >= 0 for _, _, v in tr):
                 V.append(("C03/oversized-step-wrong-exception", f"raised {type(exc).__name__} instead of InvalidOperationError"))
         V += self.file_pass(W, config)
         return res
